@@ -192,6 +192,29 @@ MUTANTS = [
     ('C18', 'instances-reused-across-builds', 'xtuml/load.py',
      "        inst = metamodel.new(stmt.kind)\n        for attr, value in zip(metaclass.attributes, stmt.values):",
      "        inst = getattr(stmt, '_inst', None) or metamodel.new(stmt.kind)\n        if getattr(stmt, '_inst', None) is not None:\n            metaclass.storage.append(inst)\n        stmt._inst = inst\n        for attr, value in zip(metaclass.attributes, stmt.values):"),
+    ('C11', 'lt1-becomes-le1', 'xtuml/consistency_check.py',
+     "        if(len(q_set) < 1 and not link.conditional)", "        if(len(q_set) <= 1 and not link.conditional)"),
+    ('C11', 'source-direction-forgotten', 'xtuml/consistency_check.py',
+     "            res += check_link_integrity(m, ass.source_link)\n", ""),
+    ('C11', 'main-only-last-r', 'xtuml/consistency_check.py',
+     "    for rel_id in opts.rel_ids:\n        error += xtuml.check_association_integrity(m, rel_id)",
+     "    for rel_id in opts.rel_ids:\n        error = xtuml.check_association_integrity(m, rel_id)"),
+    ('C11', 'is-consistent-ignores-uniqueness', 'xtuml/meta.py',
+     "        return xtuml.check_uniqueness_constraint(self) == 0", "        return True"),
+    ('C11', 'null-check-case-sensitive', 'xtuml/consistency_check.py',
+     "(ty.upper() == 'UNIQUE_ID' and not value)", "(ty == 'UNIQUE_ID' and not value)"),
+    ('C11', 'duplicate-counted-once-per-class', 'xtuml/consistency_check.py',
+     "                if index_key in id_map[identifier]:\n                    res += 1",
+     "                if index_key in id_map[identifier]:\n                    res |= 1"),
+    ('C11', 'exit-status-mod-256', 'xtuml/consistency_check.py',
+     "    sys.exit(num_errors > 0)", "    sys.exit(num_errors - 1 if num_errors == 1 else num_errors > 0)"),
+    ('C11', 'bp-main-skips-k', 'bridgepoint/consistency_check.py',
+     "    for kind in opts.kinds:\n        error += xtuml.check_uniqueness_constraint(m, kind)",
+     "    for kind in opts.kinds[:1]:\n        error += xtuml.check_uniqueness_constraint(m, kind)"),
+    ('C11', 'subtype-counts-any-link', 'xtuml/consistency_check.py',
+     "        if not xtuml.navigate_subtype(inst, rel_id):", "        if not xtuml.navigate_subtype(inst, rel_id) and inst is m.select_any(super_kind):"),
+    ('C11', 'many-upper-bound-ignored', 'xtuml/consistency_check.py',
+     "          (len(q_set) > 1 and not link.many)):", "          (len(q_set) > 2 and not link.many)):"),
 ]
 
 
